@@ -110,7 +110,9 @@ RespFails(r, e) ==
                            /\ SameBag(ns, e.ans.ns)
                            /\ Range(ar) \subseteq Range(e.ans.ar)
                            /\ (r.transport = "tcp" => Range(ar) = Range(e.ans.ar))
-                           /\ ("glue" \in DOMAIN e.ans => Range(e.ans.glue) \subseteq Range(ar))))
+                           /\ ("glue" \in DOMAIN e.ans => Range(e.ans.glue) \subseteq Range(ar)))
+                \* C04 states it too: a response with TC clear never lacks in-bailiwick referral glue
+                \cup Chk("C04", "glue" \in DOMAIN e.ans => Range(e.ans.glue) \subseteq Range(ar)))
 
 \* expectation vs recorded outcome for one choice of the server's clock
 FailsAt(r, now) ==
